@@ -135,7 +135,7 @@ func c09WriterCases(c *ev.Ctx) []wcase {
 	r := prng.New(c.Seed, 9)
 	n := 4
 	if thorough(c) {
-		n = 40
+		n = 120
 	}
 	var out []wcase
 	for i := 0; i < n; i++ {
